@@ -620,6 +620,7 @@ class Interp:
                 c.assume(p.t == terms[i]); i += 1
         out = SymNode(cls, t, fvals)
         self.new_objects.append(out)
+        self.node_by_term[t.get_id()] = out
         return out
 
     new_objects: list = []
@@ -742,6 +743,12 @@ class Interp:
             r = self.int_binop(op, ia, ib)
             if r is not None:
                 return r
+        if isinstance(a, SymReal) or isinstance(b, SymReal):
+            ra, rb = self.as_real(a), self.as_real(b)
+            if ra is not None and rb is not None:
+                r = self.real_binop(op, ra, rb)
+                if r is not None:
+                    return r
         # sequences
         if op == "add":
             sa, sb = self.static_seq(a), self.static_seq(b)
@@ -851,6 +858,35 @@ class Interp:
             return SymBool({"lt": z3.ULT, "le": z3.ULE, "gt": z3.UGT, "ge": z3.UGE}[op](ta, tb))
         return None
 
+    def as_real(self, v):
+        if isinstance(v, SymReal):
+            return v.t
+        i = self.as_int(v)
+        if i is not None:
+            return z3.ToReal(i)
+        if isinstance(v, Conc):
+            import fractions
+            if isinstance(v.obj, fractions.Fraction):
+                return z3.RealVal(str(v.obj))
+            if isinstance(v.obj, float) and v.obj == v.obj and abs(v.obj) != float("inf"):
+                return z3.RealVal(str(fractions.Fraction(v.obj)))
+        return None
+
+    def real_binop(self, op, a, b):
+        if op == "add":
+            return SymReal(a + b)
+        if op == "sub":
+            return SymReal(a - b)
+        if op == "mul":
+            return SymReal(a * b)
+        if op == "truediv":
+            if not self.decide(b != 0):
+                raise PyRaise(SymExc(ZeroDivisionError, (), origin="real /"))
+            return SymReal(a / b)
+        if op in ("eq", "ne", "lt", "le", "gt", "ge"):
+            return SymBool({"eq": a == b, "ne": a != b, "lt": a < b, "le": a <= b, "gt": a > b, "ge": a >= b}[op])
+        return None
+
     def as_int(self, v):
         if isinstance(v, SymInt):
             return v.t
@@ -930,6 +966,11 @@ class Interp:
                 return Conc({"neg": operator.neg, "pos": operator.pos, "invert": operator.invert}[name](a.obj))
             except Exception as e:  # noqa: BLE001
                 raise PyRaise(SymExc(type(e), (), origin=name)) from None
+        if isinstance(a, SymReal):
+            if name == "neg":
+                return SymReal(-a.t)
+            if name == "pos":
+                return a
         if isinstance(a, SymInt):
             if name == "neg":
                 return SymInt(-a.t)
@@ -991,6 +1032,12 @@ class Interp:
         ia, ib = self.as_int(a), self.as_int(b)
         if ia is not None and ib is not None:
             return self.int_binop(op, ia, ib)
+        if isinstance(a, SymReal) or isinstance(b, SymReal):
+            ra, rb = self.as_real(a), self.as_real(b)
+            if ra is not None and rb is not None:
+                r = self.real_binop(op, ra, rb)
+                if r is not None:
+                    return r
         if isinstance(a, (SymStr,)) or isinstance(b, SymStr):
             sa, sb = self.as_str(a), self.as_str(b)
             if sa is not None and sb is not None and op in ("eq", "ne"):
